@@ -327,7 +327,10 @@ func CheckMain(args []string) int {
 			}
 		}
 	}
-	wd := 20 * time.Minute
+	wd := 8 * time.Minute
+	if tier == "thorough" {
+		wd = 40 * time.Minute
+	}
 	if c.Watchdog != nil {
 		wd = c.Watchdog(tier)
 	}
